@@ -1750,6 +1750,8 @@ class PseudoNetCDFFile(PseudoNetCDFSelfReg, object):
                 refdate = _parse_ref_date(base)
 
                 if calendar in _calendaryearlike:
+                    # fields of the reference are used as UTC below
+                    refdate = refdate.astimezone(utc)
                     refyear = refdate.year
                     # Get a year for relative day calculations
                     yearlike = _calendaryearlike[calendar]
